@@ -14,7 +14,10 @@ EXTRA = {"C01-2": ["C07"], "C06-1": ["C07"], "C03-2": ["C02"], "C11-3": ["C16"],
          "C01-r5-1": ["C04", "C06"], "C01-r5-2": ["C07"], "C07-r5-2": ["C14"], "C08-r5-2": ["C03"], "C13-r5-1": ["C07", "C14"], "C16-r5-1": ["C09"],
          "C05-r5-2": ["C01"], "C11-r5-1": ["C16"], "C11-r5-2": ["C04", "C06"], "C06-r5-1": ["C04", "C01"], "C04-r5-2": ["C01"],
          "C01-r6-1": ["C07", "C14"], "C13-r6-1": ["C04", "C06"], "C05-r6-2": ["C02"], "C03-r6-2": ["C02"], "C06-r6-1": ["C09", "C04"],
-         "C19-r6-1": ["C03", "C10"], "C15-r6-2": ["C13", "C14"], "C09-r6-1": ["C02"], "C20-r6-2": ["C02", "C09"], "C07-r6-2": ["C14"]}
+         "C19-r6-1": ["C03", "C10"], "C15-r6-2": ["C13", "C14"], "C09-r6-1": ["C02"], "C20-r6-2": ["C02", "C09"], "C07-r6-2": ["C14"],
+         "C07-r7-1": ["C04", "C01"], "C17-r7-1": ["C06", "C04"], "C15-r7-1": ["C14", "C13"], "C13-r7-1": ["C14"], "C14-r7-1": ["C15"], "C03-r7-1": ["C02", "C08"],
+         "C11-r7-1": ["C04", "C06"], "C06-r7-1": ["C08"], "C02-r7-1": ["C16"], "C10-r7-1": ["C02"], "C12-r7-1": ["C10"], "C04-r7-1": ["C01", "C06"], "C05-r7-1": ["C02", "C18"], "C18-r7-1": ["C02", "C05"], "C08-r7-1": ["C02"], "C09-r7-1": ["C02"], "C16-r7-1": ["C02"],
+         "C19-r7-1": ["C10", "C02"], "C01-r7-1": ["C04"]}
 
 
 def run(seed):
